@@ -275,6 +275,18 @@ func replaySim(run *harness.Run, sc *SimCheck, p *Profile) int {
 		fmt.Println("bad replay file:", err)
 		return 2
 	}
+	if rf.Workload == "" {
+		// not a recorded sim case: the file documents a finding of a scripted / runtime part of this check, which is
+		// deterministic in VERIF_SEED — that part is re-executed as a whole and re-judged
+		fmt.Printf("replay file %s documents a scripted / runtime finding; re-running that part of the check (seed %d)\n", run.Replay, run.Seed)
+		var findings []harness.Finding
+		var inc []string
+		if sc.Extra != nil {
+			fs, _, i := sc.Extra(run)
+			findings, inc = fs, i
+		}
+		return run.Conclude(findings, inc)
+	}
 	run.Seed = rf.Seed
 	prof := sc.Profile(rf.Tier == "thorough")
 	prof.Workload = rf.Workload
